@@ -1621,6 +1621,13 @@ def build_tasks(ctx):
         for r in (1, 2):
             T.append({"part": "scrypt.value", "via": "frontend", "n": n, "r": r, "ps": [1, 2], "keylens": SCRYPT_KEYLENS,
                       "secrets": secrets + edge, "w": n * r * 3 * 27 * 0.00017})
+    # secret / salt lengths on both sides of the HMAC-SHA256 block (scrypt's outer PBKDF2 keys its HMAC with the secret:
+    # a key LONGER than one block is hashed first, one of exactly one block is not), through the engine and the frontend
+    block = [(f"len{L}", filler(seed, L, b"scrypt-blk"), filler(seed, S, b"scrypt-blksalt")) for L in (55, 56, 63, 64, 65, 127, 128, 129) for S in (16, 64)]
+    for via in ("engine", "frontend"):
+        for n, r in ((2, 1), (8, 2)):
+            T.append({"part": "scrypt.value", "via": via, "n": n, "r": r, "ps": [1, 2], "keylens": (32, 40),
+                      "secrets": block, "w": n * r * 2 * 2 * 16 * 0.00017})
     big_keylens = (33,) if quick else SCRYPT_KEYLENS
     for n in (128, 256, 512, 1024, 2048, 4096):
         for r in (1, 2):
